@@ -9,6 +9,7 @@ import CfVerif.Proofs.C06Write
 import CfVerif.Proofs.C06Live
 import CfVerif.Proofs.C06Deck
 import CfVerif.Proofs.C06Retry
+import CfVerif.Proofs.C06Conc
 namespace CfVerif.C06
 open CfVerif
 
@@ -889,5 +890,194 @@ example : (rrun true ⟨St.init, []⟩ [.write 1 1 5 (List.replicate 30 7) false
     .pkt 2 [1, 5, 0, 0, 0, 0], .pkt 2 [1, 30, 0, 0, 0, 0]]).1.retry = [] := by decide
 
 example : (run Variant.fixed St.init d9Witness).2 = [.send 2 [0, 0, 0, 0, 0, 0x2a], .writeOk 1 0 0] := by decide
+
+/-! ## Round 4: `write()` / `read()` / `_write_new_chunk()` statement by statement, interleaved with the incoming thread
+
+Model: `cexec` (the host), `cstepSys` (host ∥ device ∥ network).  The calling thread executes one statement per
+`stepCall`; between any two statements the incoming thread may handle any packet in flight (`net (deliver ..)`) - in
+particular the reply to a packet may be handled before `send_packet` has returned to its caller (synchronous link).
+A delivery is impossible (`none`) exactly when the code makes the incoming thread wait: a write reply, or the link-lost
+callback, while the caller holds `_write_requests_lock`. -/
+
+/-- Tie A: the lock discipline and the statement order the concurrency model is built on:
+`wreq.start()` inside the `with` block; `_handle_chan_write` takes the lock (a `with`) before it looks at the queue;
+`_write_new_chunk` cuts the chunk, sends, and only then sets `_addr_add` / `_bytes_left`; `_request_new_chunk` packs
+and sends and assigns nothing; `add_data` does all bookkeeping before requesting the next chunk; `read()` registers the
+request before `start()`. -/
+theorem gen_conc_discipline :
+    ConcVariant.code = codeCV ∧ Gen.C06.handleLookupInsideLock = true ∧ Gen.C06.handleLockWith = true ∧
+    Gen.C06.writeChunkOrder = ["self._data = self._data[new_len:]", "self.cf.send_packet(", "self._addr_add = len(data)",
+      "self._bytes_left -= self._addr_add"] ∧
+    Gen.C06.readChunkOrder = ["struct.pack(", "self.cf.send_packet("] ∧
+    Gen.C06.addDataOrder = ["self.data += data", "self._bytes_left -= data_len", "self._current_addr += data_len",
+      "self._request_new_chunk()"] ∧
+    Gen.C06.memReadOrder = ["rreq = _ReadRequest(memory, addr, length, self.cf)", "self._read_requests[memory.id] = rreq",
+      "rreq.start()", "return True"] := by decide
+
+/-- **Every interleaving is an atomic history** (library level).  For every schedule of statements of `write()` /
+`read()` calls and packet deliveries that the code allows, starting from any reachable state with no call in
+progress: the outputs (packets sent, callbacks) are exactly those of the atomic model `run` on the history `l` of
+linearisation points, the states agree as soon as no call is in progress, and `l` consists of the delivered packets
+in order and of every issued request exactly once (those not yet at their linearisation point - `send_packet`, or
+`return False` - are still to come).  Hence every theorem about atomic histories holds for every schedule. -/
+theorem every_interleaving_is_atomic {s : St} (hs : s.Ok) (acts : List CAct) (hwf : ∀ x ∈ acts, x.WF)
+    {c1 : CState} {o : List Out} {l : List Ev} (h : cexecAll ConcVariant.code ⟨s, none⟩ acts = some (c1, o, l)) :
+    (∃ a1, run Variant.fixed s l = (a1, o) ∧ Sim c1 a1 ∧ (c1.call = none → c1.s = a1)) ∧
+    l.filter (fun e => !e.isCall) = acts.flatMap CAct.delivered ∧
+    l.filter Ev.isCall ++ c1.notYet = acts.flatMap CAct.issued := by
+  rw [gen_conc_discipline.1] at h
+  obtain ⟨a1, hr, hsim, _⟩ := cexecAll_sim (c := ⟨s, none⟩) (a := s) rfl hs hwf h
+  obtain ⟨h1, h2⟩ := cexecAll_lin _ h
+  refine ⟨⟨a1, hr, hsim, fun hc => ?_⟩, h2, by simpa [CState.notYet] using h1⟩
+  unfold Sim at hsim; rw [hc] at hsim; exact hsim.symm
+
+/-- **Every schedule of the closed system is an atomic history of the closed system**: device image, replies in
+flight, pending faults and everything the library did are those of `runSys` on the linearisation `la`, which consists
+of the network actions of the schedule in order and of the issued requests, each at most once. -/
+theorem every_schedule_is_an_atomic_history (d : Device) (faults : List UInt8) (xs : List SAct)
+    (hwf : ∀ x ∈ xs, x.WF) {y : CSys} {la : List Act}
+    (h : crunSys ConcVariant.code (CSys.init d faults) xs = some (y, la)) :
+    SimSys y (runSys Variant.fixed (Sys.init d faults) la) ∧
+    la.filter (fun a => !a.isCall) = xs.flatMap SAct.netActs ∧
+    la.filter Act.isCall ++ y.host.notYet.flatMap Ev.toAct = xs.flatMap SAct.issued := by
+  rw [gen_conc_discipline.1] at h
+  have h0 : SimSys (CSys.init d faults) (Sys.init d faults) := ⟨rfl, St.init_ok, rfl, rfl, rfl, rfl⟩
+  obtain ⟨h1, h2⟩ := crunSys_lin _ h
+  exact ⟨crunSys_sim h0 hwf h, h2, by simpa [CSys.init, CState.notYet] using h1⟩
+
+/-- schedules allowed by `write_exact_every_schedule`: well-formed requests, nothing forged -/
+def SAct.OkForWrite : SAct → Prop
+  | .net (.deliver _ _) => True
+  | .net .drop => True
+  | .net _ => False
+  | x => x.WF
+
+/-- schedules allowed by `read_exact_every_schedule` for memory `id` -/
+def SAct.OkForRead (id : Nat) : SAct → Prop
+  | .begin t i a d f p => (Ev.write t i a d f p).WF ∧ i ≠ id
+  | .net (.deliver _ _) => True
+  | .net .drop => True
+  | .net _ => False
+  | x => x.WF
+
+/-- **write_exact for every schedule**: whatever the interleaving of the statements of `write()` /
+`_write_new_chunk()` with the handling of replies - the reply to a chunk handled before `send_packet` returned
+included - the device memory is exactly what the started writes say, in order, and nothing else (`write_exact`). -/
+theorem write_exact_every_schedule (d : Device) (faults : List UInt8) (xs : List SAct) (id : Nat) (hid : id < 256)
+    (m0 : Image) (hd : d[id]? = some m0) (hxs : ∀ x ∈ xs, x.OkForWrite) {y : CSys} {la : List Act}
+    (h : crunSys ConcVariant.code (CSys.init d faults) xs = some (y, la)) :
+    ∃ S : List Entry,
+      S.map Entry.note = notesW id y.outs ++
+        (((runSys Variant.fixed (Sys.init d faults) la).host.queue id).take 1).map (fun w => (w.tag, w.addr, false)) ∧
+      (∀ e ∈ S, (∃ f p, SAct.begin e.tag id e.addr e.data f p ∈ xs) ∧ e.kb ≤ e.data.length ∧
+        (e.ok = true → e.kb = e.data.length)) ∧
+      y.dev[id]? = some (applyEntries m0 S) := by
+  have hwf : ∀ x ∈ xs, x.WF := by
+    intro x hx
+    have := hxs x hx
+    cases x with
+    | net a => trivial
+    | begin _ _ _ _ _ _ => exact this
+    | beginRead _ _ _ _ => exact this
+    | stepCall => trivial
+  obtain ⟨hsim, _, _⟩ := every_schedule_is_an_atomic_history d faults xs hwf h
+  have hmem := fun a (ha : a ∈ la) => crunSys_mem _ h ha
+  have hacts : ∀ a ∈ la, a.OkForWrite := by
+    intro a ha
+    rcases hmem a ha with ⟨x, hx, hax⟩ | ⟨x, hx, hax⟩
+    · have := hxs x hx
+      cases x <;> simp only [SAct.issued, List.mem_singleton, List.not_mem_nil] at hax
+      · subst hax; exact this
+      · subst hax; exact this
+    · have := hxs x hx
+      cases x <;> simp only [SAct.netActs, List.mem_singleton, List.not_mem_nil] at hax
+      subst hax
+      cases a <;> first | exact this | trivial
+  obtain ⟨S, hS, hE, hD⟩ := write_exact d faults la id hid m0 hd hacts
+  refine ⟨S, by rw [hsim.outs]; exact hS, fun e he => ?_, by rw [hsim.dev]; exact hD⟩
+  obtain ⟨⟨f, p, hin⟩, h2, h3⟩ := hE e he
+  refine ⟨?_, h2, h3⟩
+  rcases hmem _ hin with ⟨x, hx, hax⟩ | ⟨x, hx, hax⟩
+  · cases x <;> simp only [SAct.issued, List.mem_singleton, List.not_mem_nil] at hax
+    · cases hax; exact ⟨f, p, hx⟩
+    · cases hax
+  · have := hxs x hx
+    cases x <;> simp only [SAct.netActs, List.mem_singleton, List.not_mem_nil] at hax
+    subst hax
+    exact absurd this (by simp [SAct.OkForWrite])
+
+/-- **read_exact for every schedule**: every successful read returns exactly the bytes the device holds, whatever the
+interleaving of the statements of `read()` / `write()` with the handling of replies. -/
+theorem read_exact_every_schedule (d : Device) (faults : List UInt8) (xs : List SAct) (id : Nat) (hid : id < 256)
+    (hxs : ∀ x ∈ xs, x.OkForRead id) {y : CSys} {la : List Act}
+    (h : crunSys ConcVariant.code (CSys.init d faults) xs = some (y, la))
+    (tag addr : Nat) (data : List UInt8) (hout : Out.readOk tag id addr data ∈ y.outs) :
+    ∃ len m, SAct.beginRead tag id addr len ∈ xs ∧ d[id]? = some m ∧ data = slice m addr len ∧ addr + len ≤ m.length := by
+  have hwf : ∀ x ∈ xs, x.WF := by
+    intro x hx
+    have := hxs x hx
+    cases x with
+    | net a => trivial
+    | begin _ _ _ _ _ _ => exact this.1
+    | beginRead _ _ _ _ => exact this
+    | stepCall => trivial
+  obtain ⟨hsim, _, _⟩ := every_schedule_is_an_atomic_history d faults xs hwf h
+  have hmem := fun a (ha : a ∈ la) => crunSys_mem _ h ha
+  have hacts : ∀ a ∈ la, a.OkForRead id := by
+    intro a ha
+    rcases hmem a ha with ⟨x, hx, hax⟩ | ⟨x, hx, hax⟩
+    · have := hxs x hx
+      cases x <;> simp only [SAct.issued, List.mem_singleton, List.not_mem_nil] at hax
+      · subst hax; exact this
+      · subst hax; exact this
+    · have := hxs x hx
+      cases x <;> simp only [SAct.netActs, List.mem_singleton, List.not_mem_nil] at hax
+      subst hax
+      cases a <;> first | exact this | trivial
+  rw [hsim.outs] at hout
+  obtain ⟨len, m, hin, h2, h3, h4⟩ := read_exact d faults la id hid hacts tag addr data hout
+  refine ⟨len, m, ?_, h2, h3, h4⟩
+  rcases hmem _ hin with ⟨x, hx, hax⟩ | ⟨x, hx, hax⟩
+  · cases x <;> simp only [SAct.issued, List.mem_singleton, List.not_mem_nil] at hax
+    · cases hax
+    · cases hax; exact hx
+  · have := hxs x hx
+    cases x <;> simp only [SAct.netActs, List.mem_singleton, List.not_mem_nil] at hax
+    subst hax
+    exact absurd this (by simp [SAct.OkForRead])
+
+/-- a 26-byte write (two chunks) whose first acknowledgement arrives before `_write_new_chunk` has done its
+bookkeeping (`begin`, enqueue, prepare, send, DELIVER, book, release, deliver) -/
+def syncAckSchedule : List SAct :=
+  [.begin 7 0 0 ((List.range 26).map fun i => UInt8.ofNat (i + 1)) false false, .stepCall, .stepCall, .stepCall,
+   .net (.deliver 0 false), .stepCall, .stepCall, .net (.deliver 0 false)]
+
+/-- **The lock across `start()` is what the exactness rests on**: with `wreq.start()` AFTER the `with` block
+(`ConcVariant ⟨false⟩`) the acknowledgement of the first chunk can be handled between `send_packet` and the
+bookkeeping of `_write_new_chunk`; `write_done` then advances by the stale `_addr_add = 0`: the second chunk is written
+over the first (byte 0 is 26), the tail is never written, yet the write is notified as successful. -/
+theorem start_outside_lock_counterexample :
+    (crunSys ⟨false⟩ (CSys.init [List.replicate 30 0] []) syncAckSchedule).map (fun r => (r.1.dev, r.1.outs.getLast?)) =
+      some ([[26, 2, 3, 4, 5, 6, 7, 8, 9, 10, 11, 12, 13, 14, 15, 16, 17, 18, 19, 20, 21, 22, 23, 24, 25, 0, 0, 0, 0, 0]],
+        some (.writeOk 7 0 0)) := by
+  decide +kernel
+
+/-- the code does not allow that schedule: the incoming thread waits for the lock -/
+theorem code_blocks_early_ack : crunSys ConcVariant.code (CSys.init [List.replicate 30 0] []) syncAckSchedule = none := by
+  decide +kernel
+
+/-- non-vacuity: the synchronous link under the code - the acknowledgement is handled as soon as the lock is free -
+writes all 26 bytes; and a read reply handled while `write()` holds the lock (between "prepare" and "send") -/
+example : (crunSys ConcVariant.code (CSys.init [List.replicate 30 0] [])
+    [.begin 7 0 0 ((List.range 26).map fun i => UInt8.ofNat (i + 1)) false false, .stepCall, .stepCall, .stepCall,
+     .stepCall, .stepCall, .net (.deliver 0 false), .net (.deliver 0 false)]).map (fun r => (r.1.dev, r.1.outs.getLast?)) =
+    some ([[1, 2, 3, 4, 5, 6, 7, 8, 9, 10, 11, 12, 13, 14, 15, 16, 17, 18, 19, 20, 21, 22, 23, 24, 25, 26, 0, 0, 0, 0]],
+      some (.writeOk 7 0 0)) := by
+  decide +kernel
+example : (crunSys ConcVariant.code (CSys.init [List.replicate 30 9] [])
+    [.beginRead 3 0 2 25, .stepCall, .stepCall, .stepCall, .begin 7 0 0 [1, 2] false false, .stepCall, .stepCall,
+     .net (.deliver 0 false), .stepCall, .stepCall, .stepCall, .net (.deliver 0 false)]).map (fun r => r.1.outs.getLast?) =
+    some (some (.readOk 3 0 2 (List.replicate 25 9))) := by
+  decide +kernel
 
 end CfVerif.C06
